@@ -132,4 +132,49 @@ theorem mint_cells (b : List Nat) :
         = podParts 32 (slice b 46 36) Generated.podOptionLayout 0 ([], []) := by
   simp [podCell, fieldOffset, Generated.mintFields, STy.size, podSize, Generated.podOptionLayout, partSize]
 
+/-! ## the writable flag: `data()` vs `validate()` vs `data_unchecked()` -/
+
+/-- Whatever `validate()` accepts, the bare checked cast accepts with the same fields. -/
+theorem fwView_ok_unchecked {fields : List (SName × STy)} {len : Nat} {init : List (SName × SVal) → Bool}
+    {o : Bool} {b : List Nat} {vs : List (SName × SVal)} (h : fwView fields len init o b = .ok vs) :
+    fwUnchecked fields b = .ok vs := by
+  unfold fwView at h
+  unfold fwUnchecked
+  split at h
+  · cases h
+  · split at h
+    · cases h
+    · split at h
+      · cases h
+      · rename_i hs
+        rw [if_neg hs]
+        split at h
+        · cases h
+        · rename_i vs' hr
+          split at h
+          · cases h; simp
+          · cases h
+
+/-- `data()` on a writable info is exactly `validate()` followed by the fields; on a read-only info it is the
+bare checked cast. -/
+theorem fwDataView_writable (fields : List (SName × STy)) (len : Nat) (init : List (SName × SVal) → Bool)
+    (o : Bool) (b : List Nat) : fwDataView fields len init true o b = fwView fields len init o b := by
+  unfold fwDataView
+  simp only [if_true]
+  cases h : fwView fields len init o b with
+  | error e => rfl
+  | ok vs => simp [fwView_ok_unchecked h]
+
+theorem fwDataView_readonly (fields : List (SName × STy)) (len : Nat) (init : List (SName × SVal) → Bool)
+    (o : Bool) (b : List Nat) : fwDataView fields len init false o b = fwUnchecked fields b := by
+  simp [fwDataView]
+
+/-- Once `validate()` accepts, `data()` returns the same fields for either value of the writable flag. -/
+theorem fwDataView_of_view {fields : List (SName × STy)} {len : Nat} {init : List (SName × SVal) → Bool}
+    {o : Bool} {b : List Nat} {vs : List (SName × SVal)} (h : fwView fields len init o b = .ok vs) (w : Bool) :
+    fwDataView fields len init w o b = .ok vs := by
+  cases w
+  · rw [fwDataView_readonly]; exact fwView_ok_unchecked h
+  · rw [fwDataView_writable]; exact h
+
 end Spl
